@@ -139,7 +139,7 @@ Section Partition.
   Variable parse_float : bool -> str -> option F.    (* single precision? -> np.float32(x) : float(x) / np.float64(x) *)
   Variable show_time_iso : T -> str.                 (* pd.Timestamp.isoformat()  (hive)  *)
   Variable show_time_str : T -> str.                 (* "%s" % pd.Timestamp       (drill) *)
-  Variable parse_time_np : str -> option T.          (* np.datetime64(x)  *)
+  Variable parse_time_np : bool -> str -> option T.  (* false: np.datetime64(x); true (tz-aware column): pd.Timestamp(x) put into the zone of the metadata *)
   Variable parse_time_fmt : str -> option T.         (* pd.to_datetime(x, format=PATH_DATE_FMT) *)
   Variable parse_time_pd : str -> option T.          (* pd.Timestamp(x) *)
   Variable parse_delta : str -> option D.            (* pd.Timedelta(x) *)
@@ -151,7 +151,7 @@ Section Partition.
 
   (* what the pandas metadata records for a partition column *)
   Inductive kind :=
-  | KInt (signed : bool) (bits : N) | KBool | KStr | KFloat (single : bool) | KTime (ns : bool) | KCat.
+  | KInt (signed : bool) (bits : N) | KBool | KStr | KFloat (single : bool) | KTime (ns : bool) | KTimeTz | KCat.
 
   Fixpoint show (hive : bool) (v : value) : str :=
     match v with
@@ -198,10 +198,11 @@ Section Partition.
       end
     | KFloat single => res_of_opt (option_map VFloat (parse_float single x))
     | KTime ns =>
-      match parse_time_np x with
+      match parse_time_np false x with
       | Some t => Ok (VTime t)
       | None => if ns then res_of_opt (option_map VTime (parse_time_fmt x)) else VErr
       end
+    | KTimeTz => res_of_opt (option_map VTime (parse_time_np true x))
     | KStr => Ok (VStr x)
     end.
 
